@@ -258,6 +258,12 @@ func (c *ShipConnection) processBufferedSpineMessages() {
 
 // route the incoming message to either SHIP or SPINE message handlers
 func (c *ShipConnection) HandleIncomingWebsocketMessage(message []byte) {
+	// the data connection may hand over one more message whose read had completed
+	// before the connection was closed, it is not processed any more
+	if closed, _ := c.dataWriter.IsDataConnectionClosed(); closed {
+		return
+	}
+
 	// Check if this is a SHIP SME or SPINE message
 	if !c.hasSpineDatagram(message) {
 		c.handleShipMessage(false, message)
